@@ -1,0 +1,162 @@
+//! Verification hooks. Compiled only with the cargo feature `verif-hooks`; with the feature off
+//! (the default) nothing in this file or at the `verif::point` call sites exists.
+//!
+//! * `point` / `set_hook`: named yield points so an external harness can schedule threads
+//!   deterministically at the steps of begin / commit / resize / drop.
+//! * read-only accessors for in-memory state an outside observer cannot see otherwise (the shared
+//!   free list, the registered readers, a bucket's tree as the transaction sees it).
+//! * a thin wrapper to drive `Freelist` directly.
+use std::sync::RwLock;
+
+use crate::{
+    bucket::{Bucket, InnerBucket},
+    freelist::Freelist,
+    node::NodeData,
+    page::{Page, PageID},
+    page_node::{PageNode, PageNodeID},
+    tx::Tx,
+    DB,
+};
+
+type Hook = Box<dyn Fn(&'static str, u64) + Send + Sync>;
+
+static HOOK: RwLock<Option<Hook>> = RwLock::new(None);
+
+/// Installs (or removes) the function called at every yield point.
+pub fn set_hook(h: Option<Hook>) {
+    *HOOK.write().unwrap() = h;
+}
+
+#[inline]
+pub fn point(name: &'static str, arg: u64) {
+    if let Ok(g) = HOOK.read() {
+        if let Some(h) = g.as_ref() {
+            h(name, arg);
+        }
+    }
+}
+
+/// The shared (committed) free list: free pages, and pending pages by freeing transaction.
+pub fn shared_freelist(db: &DB) -> (Vec<u64>, Vec<(u64, Vec<u64>)>) {
+    db.inner.freelist.lock().unwrap().verif_state()
+}
+
+/// The transaction's private free list and its page high-water mark.
+pub fn tx_freelist(tx: &Tx) -> (Vec<u64>, Vec<(u64, Vec<u64>)>, u64) {
+    let inner = tx.inner.borrow();
+    let fl = inner.freelist.borrow();
+    let (f, p) = fl.inner.verif_state();
+    (f, p, fl.meta.num_pages)
+}
+
+/// Snapshot ids of the registered read-only transactions.
+pub fn open_readers(db: &DB) -> Vec<u64> {
+    db.inner.open_ro_txs.lock().unwrap().clone()
+}
+
+/// Transaction id and root page of the header the transaction started from.
+pub fn tx_meta(tx: &Tx) -> (u64, u64, u64, u64) {
+    let inner = tx.inner.borrow();
+    (
+        inner.meta.tx_id,
+        inner.meta.root.root_page,
+        inner.meta.num_pages,
+        inner.meta.freelist_page,
+    )
+}
+
+fn hex(b: &[u8]) -> String {
+    if b.is_empty() {
+        return "-".to_string();
+    }
+    b.iter().map(|x| format!("{:02x}", x)).collect()
+}
+
+fn dump_page_node(b: &InnerBucket, id: PageNodeID, out: &mut String) {
+    let pn = b.page_node(id);
+    let (pid, is_node) = match &pn {
+        PageNode::Page(p) => (p.id, false),
+        PageNode::Node(n) => (n.borrow().page_id, true),
+    };
+    let mark = if is_node { "*" } else { "" };
+    if pn.leaf() {
+        out.push_str(&format!("L{}{}(", pid, mark));
+        for i in 0..pn.len() {
+            if i > 0 {
+                out.push(',');
+            }
+            let l = pn.val(i).unwrap();
+            out.push_str(&hex(l.key()));
+            out.push(if l.is_kv() { 'k' } else { 'b' });
+        }
+        out.push(')');
+    } else {
+        out.push_str(&format!("B{}{}(", pid, mark));
+        let n = pn.len();
+        for i in 0..n {
+            if i > 0 {
+                out.push(',');
+            }
+            let key: Vec<u8> = match &pn {
+                PageNode::Page(p) => {
+                    let p: &Page = p;
+                    p.branch_elements()[i].key().to_vec()
+                }
+                PageNode::Node(nd) => match &nd.borrow().data {
+                    NodeData::Branches(br) => br[i].key().to_vec(),
+                    _ => unreachable!(),
+                },
+            };
+            out.push_str(&hex(&key));
+            out.push('=');
+            let child: PageID = pn.index_page(i);
+            dump_page_node(b, PageNodeID::Page(child), out);
+        }
+        out.push(')');
+    }
+}
+
+/// The bucket's tree as the transaction currently sees it (pages overlaid by the transaction's
+/// nodes, marked `*`): `L<page>(key k|b, ...)` for leaves, `B<page>(key=<child>, ...)` for branches.
+pub fn tree_dump(bucket: &Bucket) -> String {
+    let b = bucket.inner.borrow();
+    let mut out = String::new();
+    dump_page_node(&b, PageNodeID::Page(b.meta.root_page), &mut out);
+    out
+}
+
+/// Drives a `Freelist` directly.
+pub struct FreelistProbe(Freelist);
+
+impl Default for FreelistProbe {
+    fn default() -> Self {
+        Self::new()
+    }
+}
+
+impl FreelistProbe {
+    pub fn new() -> Self {
+        FreelistProbe(Freelist::new())
+    }
+    pub fn init(&mut self, pages: &[u64]) {
+        self.0.init(pages)
+    }
+    pub fn free(&mut self, tx_id: u64, page: u64) {
+        self.0.free(tx_id, page)
+    }
+    pub fn release(&mut self, tx_id: u64) {
+        self.0.release(tx_id)
+    }
+    pub fn allocate(&mut self, num_pages: usize) -> Option<u64> {
+        self.0.allocate(num_pages)
+    }
+    pub fn pages(&self) -> Vec<u64> {
+        self.0.pages()
+    }
+    pub fn size(&self) -> u64 {
+        self.0.size()
+    }
+    pub fn state(&self) -> (Vec<u64>, Vec<(u64, Vec<u64>)>) {
+        self.0.verif_state()
+    }
+}
